@@ -23,7 +23,12 @@ CFG = {os.path.basename(p)[:-5]: json.load(open(p)) for p in glob.glob(os.path.j
 
 def units_for(prop):
     out = []
+    skip = set(x for x in os.environ.get('VERIF_SKIP_UNITS', '').split(',') if x)   # development aid: units still being written
+    only = set(x for x in os.environ.get('VERIF_ONLY_UNITS', '').split(',') if x)
     for tpl in sorted(glob.glob(os.path.join(VERIF, 'units', '*', 'unit.vrs'))):
+        name = os.path.basename(os.path.dirname(tpl))
+        if name in skip or (only and name not in only):
+            continue
         with open(tpl) as f:
             for line in f:
                 if line.startswith('//@props'):
@@ -36,6 +41,9 @@ def units_for(prop):
 def kani_units_for(prop):
     out = []
     for kj in sorted(glob.glob(os.path.join(VERIF, 'units', '*', 'kani.json'))):
+        name = os.path.basename(os.path.dirname(kj))
+        if name in os.environ.get('VERIF_SKIP_UNITS', '').split(',') or (os.environ.get('VERIF_ONLY_UNITS') and name not in os.environ['VERIF_ONLY_UNITS'].split(',')):
+            continue
         if prop in json.load(open(kj)).get('props', []):
             out.append(os.path.dirname(kj))
     return out
@@ -566,7 +574,7 @@ def main():
         'wall_s': round(time.time() - t0, 2),
         'violations': len(new_fail) + len(new_w),
     }
-    if not os.environ.get('VERIF_NOEVIDENCE'):
+    if not (os.environ.get('VERIF_NOEVIDENCE') or os.environ.get('VERIF_SKIP_UNITS') or os.environ.get('VERIF_ONLY_UNITS')):
         os.makedirs(os.path.join(VERIF, 'evidence'), exist_ok=True)
         json.dump(ev, open(os.path.join(VERIF, 'evidence', prop + '.json'), 'w'), indent=1)
 
